@@ -646,6 +646,8 @@ pub struct Selection {
     pub kf9_candidates: BTreeSet<String>,
     /// the invocation is outside the fragment the model is defined on (reason)
     pub ambiguous: Option<String>,
+    /// directories the walk cannot read (unprivileged run): one error each, nothing below them
+    pub unreadable_dirs: Vec<String>,
     /// stdin requested
     pub stdin: bool,
 }
@@ -705,8 +707,8 @@ pub fn select(world: &World, opts: &Opts) -> Selection {
             sel.missing_args.push(arg.clone());
             continue;
         };
-        if world.files.contains_key(&p) {
-            // explicit file
+        if world.real_path(&p).is_some() {
+            // explicit file (possibly through a file symlink: the path as given is what counts)
             if !opts.respect_ignores {
                 sel.selected.insert(p);
                 continue;
@@ -752,6 +754,26 @@ pub fn select(world: &World, opts: &Opts) -> Selection {
                 found
             };
             for f in files_under(world, &p) {
+                // below a directory without read/search permission nothing is seen
+                let mut blocked = false;
+                let mut cur = parent_of(f);
+                while let Some(d) = cur {
+                    if d.len() < p.len() {
+                        break;
+                    }
+                    if let Some(m) = world.mode_of(&d) {
+                        if m & 0o005 != 0o005 {
+                            if !sel.unreadable_dirs.contains(&d) {
+                                sel.unreadable_dirs.push(d.clone());
+                            }
+                            blocked = true;
+                        }
+                    }
+                    cur = parent_of(&d);
+                }
+                if blocked {
+                    continue;
+                }
                 let name = file_name(f);
                 if name == ".styluaignore" {
                     // an ignore file is never a Lua file; fall through to the glob test
@@ -822,6 +844,15 @@ pub struct Expected {
     /// stdin mode: expected stdout bytes (write mode) — None when stdout must be empty
     pub stdin_stdout: Option<Vec<u8>>,
     pub stdin_expect: Option<FileExpect>,
+    /// selected path as given -> the regular file it denotes, where the two differ (symlinks)
+    pub real_of: BTreeMap<String, String>,
+}
+
+impl Expected {
+    /// Expectation for a selected path as given on the command line / yielded by the walk.
+    pub fn expect_for(&self, given: &str) -> Option<&FileExpect> {
+        self.per_file.get(self.real_of.get(given).map(|s| s.as_str()).unwrap_or(given))
+    }
 }
 
 pub fn format_with(cfg: Config, bytes: &[u8], opts: &Opts) -> FileExpect {
@@ -835,7 +866,16 @@ pub fn format_with(cfg: Config, bytes: &[u8], opts: &Opts) -> FileExpect {
         None
     };
     let verify = if opts.verify { OutputVerification::Full } else { OutputVerification::None };
-    let res = std::panic::catch_unwind(|| stylua_lib::format_code(text, cfg, range, verify));
+    // a fresh thread per call: the reference output must not depend on anything an earlier
+    // call may have left in thread-local state of the library
+    let res = std::thread::scope(|s| {
+        std::thread::Builder::new()
+            .stack_size(8 << 20)
+            .spawn_scoped(s, || std::panic::catch_unwind(|| stylua_lib::format_code(text, cfg, range, verify)))
+            .expect("spawn model thread")
+            .join()
+            .unwrap_or_else(Err)
+    });
     match res {
         Err(_) => FileExpect::Fail("formatter crashed".into()),
         Ok(Err(e)) => FileExpect::Fail(format!("{e}").chars().take(80).collect()),
@@ -888,10 +928,16 @@ pub fn expected(world: &World, opts: &Opts, stdin: Option<&[u8]>, faults: &[simp
     }
 
     let mut status = 0;
-    if !ex.selection.missing_args.is_empty() {
+    if !ex.selection.missing_args.is_empty() || !ex.selection.unreadable_dirs.is_empty() {
         status = 2;
     }
     for f in ex.selection.selected.clone() {
+        // configuration is searched from the directory of the path as given; the bytes live
+        // in the file the path denotes
+        let real = world.real_path(&f).unwrap_or_else(|| f.clone());
+        if real != f {
+            ex.real_of.insert(f.clone(), real.clone());
+        }
         let dir = parent_of(&f).unwrap_or_default();
         let r = resolve_config(world, opts, &dir, file_name(&f), &faulted);
         let fe = match r.config {
@@ -902,10 +948,12 @@ pub fn expected(world: &World, opts: &Opts, stdin: Option<&[u8]>, faults: &[simp
             Ok(cfg) => {
                 if let Some(k) = fault_on(faults, "fs.read", &f) {
                     FileExpect::Fail(format!("read fault {k}"))
+                } else if world.mode_of(&real).map(|m| m & 0o004 == 0).unwrap_or(false) {
+                    FileExpect::Fail("read fault: no read permission".into())
                 } else {
-                    let mut fe = format_with(cfg, &world.files[&f], opts);
+                    let mut fe = format_with(cfg, &world.files[&real], opts);
                     // injected formatter faults apply to files that reach the formatter
-                    if std::str::from_utf8(&world.files[&f]).is_ok() {
+                    if std::str::from_utf8(&world.files[&real]).is_ok() {
                         match fault_on(faults, "format", &f).as_deref() {
                             Some("panic") => fe = FileExpect::Fail("injected crash".into()),
                             Some("verify") if opts.verify => fe = FileExpect::Fail("injected verification failure".into()),
@@ -913,7 +961,8 @@ pub fn expected(world: &World, opts: &Opts, stdin: Option<&[u8]>, faults: &[simp
                         }
                     }
                     if let FileExpect::Changed(_) = fe {
-                        if !opts.check && fault_on(faults, "fs.write.open", &f).is_some() {
+                        let no_write_perm = world.mode_of(&real).map(|m| m & 0o002 == 0).unwrap_or(false);
+                        if !opts.check && (fault_on(faults, "fs.write.open", &f).is_some() || no_write_perm) {
                             fe = FileExpect::Fail("read-only".into());
                         }
                     }
@@ -931,7 +980,7 @@ pub fn expected(world: &World, opts: &Opts, stdin: Option<&[u8]>, faults: &[simp
             }
             _ => {}
         }
-        ex.per_file.insert(f, fe);
+        ex.per_file.insert(real, fe);
     }
 
     if ex.selection.stdin {
